@@ -176,7 +176,7 @@ func valueSources(c *Ctx, ge *GuardEngine, rule string, only map[string]bool) {
 			}
 			where := c.P.Pos(cf.Pos)
 			matched[where] = true
-			if !valRe.MatchString(cf.Args[2]) {
+			if !valRe.MatchString(cf.Args[2]) && !valRe.MatchString(ge.pv.ExpandAll(cf.Args[2], r.val)) {
 				problems = append(problems, fmt.Sprintf("%s: the element with this ID is created from %s, the property requires %s", where, cf.Args[2], r.val))
 				continue
 			}
@@ -260,6 +260,15 @@ func checkAlts(got []Alt, want []Alt) string {
 				}
 				if strings.HasSuffix(cx, " is true") {
 					allNeg = false
+				}
+			}
+			// the last case of a type switch with a rejecting default carries no positive condition of its own:
+			// the value read through the asserted type implies the assertion held
+			if !okc && allNeg {
+				if i := strings.Index(ctxPat, ".("); i >= 0 {
+					if j := strings.Index(ctxPat[i:], ")"); j > 0 && strings.Contains(g.Atom, ctxPat[i:i+j+1]) {
+						okc = true
+					}
 				}
 			}
 			if okc || (allowDefault && allNeg) {
